@@ -96,6 +96,9 @@ type lfState struct {
 	decided map[int]bool // opaque boolean id → value chosen on this path
 	trail   []string     // human-readable branch decisions (for reports)
 	events  []lfEvent    // bits mode: stores to receiver fields / output bytes, in order
+	// bits mode, only with lfEngine.bitFacts: source bits whose value the branches taken so far
+	// have fixed ("src#idx" → value); a branch contradicting one is infeasible
+	bitFacts map[string]bool
 }
 
 type lfEvent struct {
@@ -150,6 +153,12 @@ func (s *lfState) clone() *lfState {
 	for k, v := range s.decided {
 		n.decided[k] = v
 	}
+	if s.bitFacts != nil {
+		n.bitFacts = make(map[string]bool, len(s.bitFacts))
+		for k, v := range s.bitFacts {
+			n.bitFacts[k] = v
+		}
+	}
 	return n
 }
 
@@ -193,6 +202,7 @@ type lfObl struct {
 }
 
 type lfEngine struct {
+	bitFacts bool // record, per path, the source bits fixed by single-bit tests (lfState.bitFacts)
 	c           *Ctx
 	symNames    []string
 	nextID      int
@@ -904,6 +914,21 @@ func (e *lfEngine) assume(st *lfState, cond lfVal, want bool, label string) []*l
 		n.trail = append(n.trail, fmt.Sprintf("%s=%v", label, want))
 		return []*lfState{n}
 	case vCmp:
+		if e.bitFacts && c.Bit != nil && (c.Bit.K == 's' || c.Bit.K == 'n') {
+			key := fmt.Sprintf("%s#%d", c.Bit.Src, c.Bit.Idx)
+			val := want == (c.Bit.K == 's')
+			if old, has := st.bitFacts[key]; has {
+				if old != val {
+					return nil
+				}
+			} else {
+				st = st.clone()
+				if st.bitFacts == nil {
+					st.bitFacts = map[string]bool{}
+				}
+				st.bitFacts[key] = val
+			}
+		}
 		op := c.Op
 		if !want {
 			switch op {
@@ -2116,6 +2141,11 @@ func (e *lfEngine) doBinOp(fr *lfFrame, st *lfState, x *ssa.BinOp) {
 				out = bvBinary("&^", lb, rb, w)
 			case token.ADD:
 				out = bvBinary("+", lb, rb, w)
+				if out == nil {
+					out = bvAddSub(lb, rb, w, false)
+				}
+			case token.SUB:
+				out = bvAddSub(lb, rb, w, true)
 			case token.SHL:
 				if k, isK := ri.E.isConst(); isK && k >= 0 && k < 64 && lb != nil {
 					out = lb.resize(w, false).shl(int(k), w)
